@@ -5,5 +5,6 @@ CONSTANTS
   Mode = "atoms"
   MaxOps = 2
   CpsMode = TRUE
+INVARIANT DiagAgreesWithParse
 INVARIANT Export
 CHECK_DEADLOCK FALSE
